@@ -236,7 +236,8 @@ func TestCheck(t *testing.T) {
 		}
 		ik := innerKinds[r.IntN(len(innerKinds))]
 		wk := wrapKinds[r.IntN(len(wrapKinds))]
-		var inner core.Limit
+		var inner, decoy core.Limit
+		decoyCalls := 0
 		var spec any
 		var settable *limit.SettableLimit
 		var rec *recLimit
@@ -274,6 +275,9 @@ func TestCheck(t *testing.T) {
 				rt.Count("gradient_cases_with_a_maximum_below_queue_allowance_or_minimum", 1)
 			}
 			inner, spec = s.New(nil, "c16"), s
+			// a second live instance of the same configuration whose listeners are registered in turn with the first one's:
+			// instances share nothing - it receives no sample, so its listeners are never called
+			decoy = s.New(nil, "c16-other")
 		}
 		top := inner
 		var win *limit.WindowedLimit
@@ -314,6 +318,9 @@ func TestCheck(t *testing.T) {
 				}
 			})
 			rt.Count("listeners_registered", 1)
+			if decoy != nil {
+				decoy.NotifyOnChange(func(int) { decoyCalls++ })
+			}
 		}
 		for k := r.IntN(3); k > 0; k-- {
 			register()
@@ -392,6 +399,10 @@ func TestCheck(t *testing.T) {
 			}
 			if d := inner.EstimatedLimit(); d != after {
 				fail("wrapper-estimate-differs-from-delegate", rt.J{"delegate_estimate": d})
+				return
+			}
+			if decoyCalls > 0 {
+				fail("listener-of-another-instance-was-notified", rt.J{"calls": decoyCalls})
 				return
 			}
 			if before != after {
